@@ -1,6 +1,7 @@
 (* C08 correspondence glue: one case = one call through the generated client to a generated server whose mock resource
    behaved as c_impl (or one malformed request), with what was observed on the wire, at the client and in the resource's
-   error object afterwards.  The stack trace's text is projected to its presence ("S"). *)
+   error object afterwards.  The stack trace's text is projected to its presence ("S").  The server may have filters
+   (c_filters: Status.serve_f; StatusProofs.call_f_nil: without filters this is Status.call). *)
 From Coq Require Import List Bool ZArith.
 From Coq.Strings Require Import Byte.
 From GR Require Import Base.Bytes Gen.TablesStatus Http.Status.
@@ -11,6 +12,7 @@ Inductive obody := OBNone | OBJson | OBErr (e : err_resp) | OBText | OBBad.
 
 Record case := {
   c_meth : meth;
+  c_filters : list filter;   (* the server's filters: what their hooks return ([] = a server without filters) *)
   c_heap : heap;
   c_defect : reqdefect;
   c_impl : impl;
@@ -24,7 +26,7 @@ Record case := {
   o_after : heap
 }.
 
-Definition model_out (c : case) : exchange := call (c_heap c) (c_meth c) (c_defect c) (c_impl c).
+Definition model_out (c : case) : exchange := call_f (c_heap c) (c_filters c) (c_meth c) (c_defect c) (c_impl c).
 
 Fixpoint heap_eqb (a b : heap) : bool :=
   match a, b with
